@@ -2,6 +2,7 @@
 pub mod e1;
 pub mod interp;
 pub mod replay;
+pub mod stat;
 pub mod unit;
 
 /// Replay hook for the non-E1 engines.
